@@ -492,7 +492,7 @@ pub(crate) mod verif_hooks {
             slots[8] = slot;
             out.push(NodeInfo {
                 addr: node as *const Node as usize,
-                in_use: node.in_use.verif_peek(),
+                in_use: node.in_use.verif_peek() & NODE_STATE_MASK,
                 active_writers: node.active_writers.verif_peek(),
                 control,
                 slots,
